@@ -393,7 +393,7 @@ func (e *Env) Sync(fn func()) { e.S.call(msg{kind: mQuery, fn: fn}) }
 // Go starts fn as a new simulated task (a child of the running task).
 func (e *Env) Go(fn func()) {
 	key := new(int)
-	e.S.Spawn(key)
+	e.S.call(msg{kind: mSpawn, key: key, name: "driver"})
 	go func() {
 		e.S.Start(key)
 		defer e.S.Exit(key)
@@ -546,7 +546,12 @@ func (s *Sched) handle(m msg) bool {
 		if s.live > s.MaxLive {
 			s.MaxLive = s.live
 		}
-		s.event(t, "spawn", int64(c.Idx), 0)
+		if m.name == "driver" {
+			// a harness-level task (a caller of the library), not a block task
+			s.event(t, "spawn.driver", int64(c.Idx), 0)
+		} else {
+			s.event(t, "spawn", int64(c.Idx), 0)
+		}
 		m.reply <- cmd{}
 		return false
 	case mRecovered:
